@@ -4,7 +4,7 @@ Property theorems and non-vacuity examples only; helper lemmas are in Lemmas/Par
 
 `fmtS` = format_expression_internal (single-line path), `fmtH`/`hangBin` =
 format_hanging_expression_/hang_binop_expression with every layout answer taken from an
-arbitrary `Oracle`.  `repaired` is the code after the four `fix:` commits of this round;
+arbitrary `Oracle`.  `repaired` is the code after the five `fix:` commits of this round;
 `pinned` is the code before them (kept to show, by computation, that it violated C05).
 -/
 import StyluaModel.Lemmas.Paren
@@ -34,10 +34,10 @@ theorem C05_hang (o : Oracle) (ctx : Ctx) (p : Pos) (e : Expr) (hd : dropOK ctx 
   ⟨g.1, g.2.1, g.2.2.1⟩
 
 /-- the same for hang_binop_expression entered directly -/
-theorem C05_hang_binop (o : Oracle) (ctx : Ctx) (p : Pos) (e : Expr) (hd : dropOK ctx p = true)
-    (hf : faithful e = true) (hok : okAt p e = true) :
+theorem C05_hang_binop (o : Oracle) (ctx : Ctx) (p : Pos) (e : Expr) (hs : ctx ≠ .std)
+    (hd : dropOK ctx p = true) (hf : faithful e = true) (hok : okAt p e = true) :
     faithful (hangBin repaired o ctx e) = true ∧ sem (hangBin repaired o ctx e) = sem e :=
-  let g := (hang_good e).2 o ctx p hd hf hok
+  let g := (hang_good e).2 o ctx p hs hd hf hok
   ⟨g.1, g.2.2.1⟩
 
 /-- **Entry points** (assignment / local / return right-hand sides, call arguments, table
@@ -125,7 +125,16 @@ theorem C05_pinned_hang_comment_violates :
     let e := bin .plus (atom 2) (bin .caret (paren (un .minus (atom 0))) (atom 1))
     let o := Oracle.node false false false false .leaf (.node false false true false .leaf .leaf)
     faithful e = true ∧
-    faithful (fmtH { ctxThroughDrop := true, hangMinusGuard := true, hangLhsExp := false } o .std e) = false := by
+    faithful (fmtH { ctxThroughDrop := true, hangMinusGuard := true, hangLhsExp := false, hangRhsOperand := true } o .std e) = false := by
+  decide
+
+/-- D30: `a and (b :: T) < c` on the hanging path: the assertion lost its parentheses and
+`T < c` reads as a generic type -/
+theorem C05_pinned_hang_assert_violates :
+    let e := bin .and (atom 0) (bin .lt (paren (assert (atom 1))) (atom 2))
+    let o := Oracle.node false false false false .leaf (.node false false true false .leaf .leaf)
+    faithful e = true ∧
+    faithful (fmtH { ctxThroughDrop := true, hangMinusGuard := true, hangLhsExp := true, hangRhsOperand := false } o .std e) = false := by
   decide
 
 /-! ## non-vacuity: concrete non-trivial inputs meeting the hypotheses -/
@@ -134,5 +143,6 @@ example : fmtS repaired .std (bin .caret (paren (paren (un .minus (atom 0)))) (c
     = bin .caret (paren (un .minus (atom 0))) (call 1) := by decide
 example : dropOK .binLhsExp (.binL .caret) = true ∧ okAt (.binL .caret) (paren (un .minus (atom 0))) = true := by decide
 example : sem (paren (paren (call 3))) = .trunc (.call 3) := by decide
+example : okAt (.binL .lt) (assert (atom 1)) = false ∧ okAt (.binL .lt) (paren (assert (atom 1))) = true := by decide
 
 end StyluaModel.C05
